@@ -94,12 +94,30 @@ def spec_render(b, tmpl, lits, params_mode):
 
 
 TEMPLATE = {}
+BRACKET_CASES = set()
+
+
+def is_bracket_case(case):
+    """an array value with `]` in an element, written as a constant (class F28)"""
+    import richvalues
+    try:
+        q = case.split(" ", 2)[2]
+        return case in BRACKET_CASES or any(richvalues.array_with_bracket(a) for a in richvalues.constant_atoms(q))
+    except Exception:
+        return False
+TVALUES = list(VALUES)      # + values of the other kinds (set by gen_cases; literal texts come from the implementation)
+RICH_TEMPLATE_TERMS = ["Json:27", "Json:24", "Json:N", "ChronoDate:19000", "TimeDateTimeWithTimeZone:100~2", "Uuid:1",
+                       "Decimal:15~1", "Vector:3f800000.bf800000", "Double:3fb999999999999a",
+                       "Array:String:[String:%s,String:N]" % hexs("?$1'"), "Array:Int:[]"]
 
 
 def gen_cases(ctx):
+    import richvalues
     rng = ctx.rng
     lines = []
+    forms = {}
     maxlen = 3 if ctx.quick else 4
+    TVALUES[:] = list(VALUES) + richvalues.encode_terms(ctx, RICH_TEMPLATE_TERMS)
     for b in B:
         ps = pieces(b)
         for L in range(0, maxlen + 1):
@@ -111,26 +129,50 @@ def gen_cases(ctx):
             for combo in combos:
                 tmpl = "".join(combo)
                 k = rng.randrange(0, 4)
-                vals = [rng.choice(VALUES) for _ in range(k)]
-                line = "expr %s (custw %s%s)" % (b, hexs(tmpl), "".join(" (val %s)" % v for v in vals))
+                vals = [rng.choice(TVALUES) for _ in range(k)]
+                # the same template node through every way of building it: the enum constructor (custw) and the
+                # public constructors Expr::cust_with_values (custv), cust_with_exprs (custe), cust_with_expr
+                # (custe1, exactly one argument); k = 0 arguments included for custw / custv / custe
+                form = rng.choice(["custw", "custv", "custe"])
+                if form == "custe" and k == 1 and rng.random() < 0.5:
+                    form = "custe1"
+                args = "".join((" %s" % v) if form == "custv" else (" (val %s)" % v) for v in vals)
+                line = "expr %s (%s %s%s)" % (b, form, hexs(tmpl), args)
+                forms["%s/%d" % (form, k)] = forms.get("%s/%d" % (form, k), 0) + 1
                 TEMPLATE[line] = (b, tmpl, vals)
                 lines.append(line)
     # inject_parameters over the statement stream
     n = 1500 if ctx.quick else 25000
+    # values of every kind (payload-crate values, vectors, floats, arrays, NULLs): inject_parameters writes them
+    # with value_to_string, to_string with the inline writer
+    pool = richvalues.make_value_pool(ctx, rng, 400 if ctx.quick else 3000)
+    inj = []
+    excluded = {"array constant with ] in an element": 0}   # counted, not excluded: see F28
     for _ in range(n):
         b = rng.choice(B)
-        g = gen_sql.Gen(rng, b, max_depth=rng.choice([1, 2, 3]), no_marks=True)
+        g = gen_sql.Gen(rng, b, max_depth=rng.choice([1, 2, 3]), no_marks=True, value_pool=pool)
         q = g.query(rng.choice([1, 2])) if rng.random() < 0.7 else g.expr()
-        lines.append("inject %s %s" % (b, q))
+        # KNOWN CLASS F28 (genuine defect of inject_parameters, listed in known_findings.json): an array value written
+        # as a constant (SimpleExpr::Constant / ORDER BY FIELD: inlined in the parameterised SQL too) one of whose
+        # elements contains `]`, e.g. build() = "SELECT ARRAY [']'] WHERE $1".  The crate tokenizer reads `[...]` as
+        # a quoted identifier ending at the FIRST `]`, i.e. inside the element literal; the rest of the literal then
+        # opens a quoted string that swallows the following text, and later placeholders stay unreplaced.
+        if any(richvalues.array_with_bracket(a) for a in richvalues.constant_atoms(q)):
+            excluded["array constant with ] in an element"] += 1
+            BRACKET_CASES.add("inject %s %s" % (b, q))
+        inj.append("inject %s %s" % (b, q))
+    lines += inj
     ctx.cov["distribution"] = {"template_alphabet": {b: pieces(b) for b in B}, "exhaustive_maxlen": maxlen,
-                               "inject_statements": n}
+                               "template_forms_by_arity": dict(sorted(forms.items())),
+                               "inject_statements": len(inj), "inject_array_constant_with_bracket": excluded, "value_pool_size": len(pool),
+                               "inject_values": richvalues.distribution(inj)}
     return lines
 
 
 def batch_oracle(ctx, lines, impl):
     verdicts = [None] * len(lines)
     # literal text of every pool value per backend, from the implementation itself
-    lit_lines = ["expr %s (val %s)" % (b, v) for b in B for v in VALUES]
+    lit_lines = ["expr %s (val %s)" % (b, v) for b in B for v in TVALUES]
     lit_out = ctx.run_impl(lit_lines, "lits")
     LIT = {}
     for l, o in zip(lit_lines, lit_out):
@@ -165,6 +207,8 @@ def batch_oracle(ctx, lines, impl):
             if f[0] != f[1]:
                 b = c.split(" ")[1]
                 tag = "F16 " if (b in ("sl", "pg") and re.search(r"\\[\"']", unhexs(f[1]))) else ""
+                if not tag and is_bracket_case(c):
+                    tag = "F28 "
                 verdicts[i] = tag + "inject_parameters(build()) = %r differs from to_string() = %r" % (unhexs(f[0])[:300], unhexs(f[1])[:300])
     ctx.cov["oracle_templates_checked"] = tchecked
     ctx.cov["oracle_inject_checked"] = ichecked
@@ -172,10 +216,11 @@ def batch_oracle(ctx, lines, impl):
 
 
 def classify(case, out, failure, kfs):
-    if failure.startswith("F16 "):
-        for k in kfs:
-            if k.get("matcher", {}).get("class") == "inject-backslash-quote":
-                return k
+    for prefix, cls in (("F16 ", "inject-backslash-quote"), ("F28 ", "inject-array-constant-bracket")):
+        if failure.startswith(prefix):
+            for k in kfs:
+                if k.get("matcher", {}).get("class") == cls:
+                    return k
     return None
 
 
@@ -187,8 +232,10 @@ def run(ctx):
         rule="templates: every concatenation of up to 3 (quick: length 3 sampled) / 4 (sampled) pieces from a 13-15 symbol "
              "alphabet (words, operators, whitespace, quoted literals / identifiers with embedded marks, doubled quotes, "
              "backslash-escaped quotes, [..], placeholders, doubled marks) x 0..3 values x 3 backends, compared with an "
-             "independent character-level reading of the template language; inject_parameters(build(s)) == to_string(s) "
-             "over random statements; non-trivial = contains a mark / binds a value")
+             "independent character-level reading of the template language, each template built at random through the enum "
+             "constructor or Expr::cust_with_values / cust_with_exprs / cust_with_expr; inject_parameters(build(s)) == to_string(s) "
+             "over random statements whose values range over every value kind (all 31 Value variants, finite floats, NULLs, "
+             "arrays); non-trivial = contains a mark / binds a value")
 
 
 def replay(path):
